@@ -955,6 +955,10 @@ def cache(fun):
     def newfun(_self: "TensorDictBase", *args, **kwargs):
         if not _self.is_locked or is_compiling():
             return fun(_self, *args, **kwargs)
+        if getattr(_self, "_is_locked", True) is None:
+            # a lazy stack that is locked only because each of its tensordicts is: nothing erases
+            # its cache when they are unlocked (see LazyStackedTensorDict.is_locked)
+            return fun(_self, *args, **kwargs)
         cache = _self._cache
         if cache is None:
             cache = _self._cache = defaultdict(dict)
@@ -964,10 +968,12 @@ def cache(fun):
             out = fun(_self, *args, **kwargs)
             if not isinstance(out, Tensor):
                 # we don't cache tensors to avoid filling the mem and / or
-                # stacking them from their origin
-                cache[key] = out
+                # stacking them from their origin.
+                # The arguments are kept with the value: some enter the key through their id(),
+                # which must not be taken by another object while the entry lives.
+                cache[key] = (out, args, kwargs)
         else:
-            out = cache[key]
+            out = cache[key][0]
             if _VERIF_CACHE_CHECKER is not None:
                 # TENSORDICT_VERIF=1 only: hand the cached value and a fresh recomputation to the registered checker
                 _VERIF_CACHE_CHECKER(
